@@ -624,6 +624,11 @@ func (r *c13Run) unbond(i int, final bool) {
 	res := c.Msg(&crosschaintypes.MsgUnbondedOracle{ChainName: r.spec.Chain, OracleAddress: o.Oracle.Bech32()})
 	got := c.Balance(c.Ctx, o.Oracle.Acc(), fxtypes.DefaultDenom).Sub(balBefore)
 	r.logf("unbond o%d matured=%v liquid=%s delegated=%s unbonding=%s -> ok=%v %s got=%s", i, matured, liquid, delegated, unbonding, res.OK(), short(res.ErrString()), got)
+	if !matured && final && m.removed && r.c.Time.Sub(m.removedAt) > 21*24*time.Hour+time.Minute && unbonding.IsZero() {
+		// governance removed the oracle more than an unbonding period ago and its stake never even
+		// entered the unbonding queue: it can not be withdrawn, now or later
+		r.res.Violate("C13/removed-oracle-stake-never-unbonded", "oracle %d was removed by governance at %s (now %s) but %s FX of its stake are still delegated and nothing is unbonding; MsgUnbondedOracle: ok=%v %s", i, m.removedAt.Format(time.RFC3339), r.c.Time.Format(time.RFC3339), delegated, res.OK(), short(res.ErrString()))
+	}
 	if !matured {
 		r.res.Count("unbond_too_early_attempts", 1)
 		if res.OK() {
